@@ -79,7 +79,7 @@ fn part_a(ctx: &Ctx, rep: &mut Report) -> bool {
             })
         };
         push(gd::WitnessKind::Honest, thorough);
-        let (n_s, n_p) = if thorough { (8, 3) } else { (1, 0) };
+        let (n_s, n_p) = if thorough { (5, 2) } else { (1, 0) };
         let mut ss = scalars.clone();
         ss.shuffle(&mut rng);
         // the last scalar read (an evaluation, absorbed just before the final challenges) is
